@@ -48,6 +48,7 @@ type Result struct {
 	Counters   map[string]int64 `json:"cnt,omitempty"`
 	Sample     interface{}      `json:"sample,omitempty"`
 	Extra      interface{}      `json:"extra,omitempty"`
+	Fatal      bool             `json:"fatal,omitempty"` // the worker must not run further cases (e.g. a goroutine is left spinning)
 }
 
 // Case is handed to a property's Run function inside a worker process.
@@ -105,6 +106,10 @@ func (c *Case) Inconclusive(format string, a ...interface{}) *Result {
 	c.res.Msg = fmt.Sprintf(format, a...)
 	return c.res
 }
+
+// Poisoned marks the worker process as unusable after this case (it exits after
+// reporting; the driver respawns a worker for the remaining cases).
+func (c *Case) Poisoned() { c.res.Fatal = true }
 
 // Held ends the case as held.
 func (c *Case) Held() *Result {
@@ -213,12 +218,46 @@ func WorkerMain(propID, tier string, seed uint64, idx []int, stepsPath string) i
 		out.WriteByte('\n')
 		out.Flush()
 	}
+	go memoryWatchdog()
 	for _, i := range idx {
 		emit(map[string]int{"start": i})
 		res := RunCase(p, tier, seed, i, stepsPath)
 		emit(res)
+		if res.Fatal || res.Verdict == Inconclusive && strings.HasPrefix(res.Msg, "case watchdog") {
+			return 0
+		}
 	}
 	return 0
+}
+
+// memoryWatchdog ends the worker when its resident set exceeds the limit (a runaway loop
+// in the code under test must not take the machine down); the driver reports the case in
+// progress as crashed with the goroutine dump as witness.
+func memoryWatchdog() {
+	limitPages := int64(3<<30) / int64(os.Getpagesize())
+	if v := os.Getenv("VERIF_WORKER_MEM_GB"); v != "" {
+		if g, err := strconv.Atoi(v); err == nil && g > 0 {
+			limitPages = int64(g<<30) / int64(os.Getpagesize())
+		}
+	}
+	for {
+		time.Sleep(100 * time.Millisecond)
+		b, err := os.ReadFile("/proc/self/statm")
+		if err != nil {
+			return
+		}
+		f := strings.Fields(string(b))
+		if len(f) < 2 {
+			return
+		}
+		rss, _ := strconv.ParseInt(f[1], 10, 64)
+		if rss > limitPages {
+			buf := make([]byte, 256<<10)
+			n := runtime.Stack(buf, true)
+			fmt.Fprintf(os.Stderr, "fatal error: MEMORY-WATCHDOG resident set above limit (runaway allocation in the case in progress)\n%s\n", buf[:n])
+			os.Exit(3)
+		}
+	}
 }
 
 // RunCase executes one case with the per-case watchdog.
@@ -288,6 +327,20 @@ type Agg struct {
 	Crashes      int
 	Notes        map[string]interface{}
 	mu           sync.Mutex
+	stopped      int32 // set when the violation cap is reached: remaining cases are skipped
+}
+
+// MaxViolations caps the violations collected before the run is cut short (a badly broken
+// tree must not make the check run for hours; the verdict is a violation either way).
+const MaxViolations = 40
+
+func (a *Agg) shouldStop() bool {
+	a.mu.Lock()
+	defer a.mu.Unlock()
+	if len(a.Violations) >= MaxViolations {
+		a.stopped = 1
+	}
+	return a.stopped == 1
 }
 
 // AddViolation lets Post hooks report driver-side violations.
@@ -471,6 +524,9 @@ func DriverMain(propID, tier string, seed uint64, only []int) int {
 func runWorker(p *Prop, tier string, seed uint64, w int, mine []int, workDir, raceDir string, agg *Agg) {
 	steps := filepath.Join(workDir, fmt.Sprintf("w%d.steps", w))
 	for len(mine) > 0 {
+		if agg.shouldStop() {
+			return
+		}
 		var args []string
 		for _, i := range mine {
 			args = append(args, strconv.Itoa(i))
@@ -510,6 +566,9 @@ func runWorker(p *Prop, tier string, seed uint64, w int, mine []int, workDir, ra
 							agg.absorb(&r, "")
 							doneSet[r.Index] = true
 							current = -1
+							if agg.shouldStop() {
+								cmd.Process.Kill()
+							}
 						}
 					}
 				}
@@ -519,6 +578,9 @@ func runWorker(p *Prop, tier string, seed uint64, w int, mine []int, workDir, ra
 			}
 		}
 		werr := cmd.Wait()
+		if agg.shouldStop() && current < 0 {
+			return
+		}
 		var rest []int
 		for _, i := range mine {
 			if !doneSet[i] && i != current {
@@ -728,6 +790,10 @@ func finish(a *Agg, start time.Time, partial bool) int {
 	}
 	if p.Assumptions == nil {
 		p.Assumptions = []string{}
+	}
+	if a.stopped == 1 {
+		fmt.Printf("NOTE property=%s run cut short after %d violations (%d cases evaluated)\n", p.ID, len(a.Violations), a.Evaluations)
+		floor = 0
 	}
 	cov := map[string]interface{}{
 		"evaluations":         a.Evaluations,
